@@ -36,6 +36,9 @@ TRUSTED = [
     "AddonManager._call_all_addon_hooks/_call_module_hooks/_try_call_hook (swallow_addon_exceptions=True, "
     "the production default), AddonManager.handle_lludp_message (command channel, RLV loop) and the tail of "
     "InterceptingLLUDPProxyProtocol.handle_proxied_packet after deserialisation",
+    "a take() that fails in its copy step (own_op TakeFail) is produced in the harness by putting an object whose "
+    "__deepcopy__ raises into message.meta for the duration of the real Message.take() call (as a packet hook tagging "
+    "packet.meta with a ProxiedRegion would); other ways for take() to fail half-way are not modelled",
     "abstracted: packet-ID rewriting / InjectionTracker (C04), serialisation (C01/C02), ack values (only "
     "'has effective acks'), the content of messages (only a mutation counter); PacketAck originals that the proxy "
     "suppresses because they only ack injected packets (prepare_message returning False) are outside the model",
@@ -982,7 +985,7 @@ def _correspond(ctx):
         ctx.notes.append("%d datagrams in which a raising subscriber predicate aborted the remaining subscribers of a "
                          "MessageHandler (Event.notify evaluates predicates outside its try/except) - modelled as coded" % notes_pred)
     # message-level ownership sequences against Ownership.apply_ops
-    L = ctx.pick(5, 6)
+    L = ctx.pick(4, 6)
     olines, ocases = [], []
     for rel, acks in itertools.product((0, 1), repeat=2):
         for n in range(0, L + 1):
